@@ -19,7 +19,7 @@ What is left a PARAMETER is plain data:
 Python idioms and their models
 * `name in font` / `font[name].unicodes`      → `List.contains` on `names` / `AL.get?` on `unicodes` (`[]` when absent)
 * `self.get(value)` / `value in self`         → `AL.get?` on `cmap`
-* `glyphList[0]` on an empty list             → `.error "IndexError"` (never under `CmapWF`, Spec/NameLookups.lean)
+* `glyphList[0]` on an empty list             → `.raised "IndexError"` (never under `CmapWF`, Spec/NameLookups.lean)
 * recursion (`decompositionBase`, `_findAvailablePUACode`) → fuel; out of fuel is the model of `RecursionError`
   (`-1` / `none`; never reached by the runs compared: the harness compares every answer)
 * a method that assigns to `self._…`          → returns the new state beside its answer (`forcedUnicodeFor`, `ask`)
@@ -30,6 +30,12 @@ import DefconModel.NameSort
 namespace DefconModel
 namespace NameLookups
 open NameSort
+
+/-- the answer of a method that may raise -/
+inductive Res (α : Type) where
+  | ok (a : α)
+  | raised (what : String)
+deriving Repr, DecidableEq
 
 /-! ## parameters -/
 
@@ -178,9 +184,9 @@ def forcedUnicodeFor (s : UData) (n : Name) : UData × Option Nat :=
         ({ s with forcedByCode := AL.set s.forcedByCode v n, forcedByName := AL.set s.forcedByName n v }, some v)
 
 /-- `glyphNameForForcedUnicode` -/
-def nameForForced (s : UData) (v : Nat) : Except String (Option Name) :=
+def nameForForced (s : UData) (v : Nat) : Res (Option Name) :=
   match AL.get? s.cmap v with
-  | some [] => .error "IndexError"
+  | some [] => .raised "IndexError"
   | some (g :: _) => .ok (some g)
   | none => .ok (AL.get? s.forcedByCode v)
 
@@ -209,7 +215,7 @@ def reattach (s : UData) (n base : Name) : Name :=
   else base
 
 /-- `decompositionBaseForGlyphName` (answers the name itself when it finds nothing) -/
-def decompositionBaseFor (db : UniDB) (s : UData) (n : Name) (pseudo : Bool) : Except String Name :=
+def decompositionBaseFor (db : UniDB) (s : UData) (n : Name) (pseudo : Bool) : Res Name :=
   match valueOf s pseudo n with
   | none => .ok n
   | some v =>
@@ -218,7 +224,7 @@ def decompositionBaseFor (db : UniDB) (s : UData) (n : Name) (pseudo : Bool) : E
     else
       match AL.get? s.cmap d.toNat with              -- `decomposition in font.unicodeData`
       | none => .ok n
-      | some [] => .error "IndexError"               -- `font.unicodeData[decomposition][0]`
+      | some [] => .raised "IndexError"               -- `font.unicodeData[decomposition][0]`
       | some (b :: _) => .ok (reattach s n b)
 
 /-- `_openCloseSearch` -/
@@ -264,13 +270,13 @@ inductive Ans where
   | raised (what : String)
 deriving Repr, DecidableEq
 
-def Ans.ofExceptName : Except String Name → Ans
+def Ans.ofResName : Res Name → Ans
   | .ok n => .name (some n)
-  | .error e => .raised e
+  | .raised e => .raised e
 
-def Ans.ofExceptOptName : Except String (Option Name) → Ans
+def Ans.ofResOptName : Res (Option Name) → Ans
   | .ok n => .name n
-  | .error e => .raised e
+  | .raised e => .raised e
 
 /-- the one look-up that may write -/
 def Ask.allocates : Ask → Bool
@@ -287,11 +293,11 @@ def ask (db : UniDB) (s : UData) : Ask → UData × Ans
     match forcedUnicodeFor s n with
     | (s', some v) => (s', .code (some v))
     | (s', none) => (s', .raised "RecursionError")
-  | .nameForForced v => (s, Ans.ofExceptOptName (nameForForced s v))
+  | .nameForForced v => (s, Ans.ofResOptName (nameForForced s v))
   | .script n p => (s, .tag (scriptFor db s n p))
   | .block n p => (s, .tag (blockFor db s n p))
   | .category n p => (s, .tag (categoryFor db s n p))
-  | .decompositionBase n p => (s, Ans.ofExceptName (decompositionBaseFor db s n p))
+  | .decompositionBase n p => (s, Ans.ofResName (decompositionBaseFor db s n p))
   | .closeRelative n p => (s, .name (closeRelativeFor db s n p))
   | .openRelative n p => (s, .name (openRelativeFor db s n p))
 
